@@ -392,7 +392,9 @@ func (s *server) DropRowRange(ctx context.Context, req *btapb.DropRowRangeReques
 
 func (s *server) GenerateConsistencyToken(ctx context.Context, req *btapb.GenerateConsistencyTokenRequest) (*btapb.GenerateConsistencyTokenResponse, error) {
 	// Check that the table exists.
+	s.mu.Lock()
 	_, ok := s.tables[req.Name]
+	s.mu.Unlock()
 	if !ok {
 		return nil, status.Errorf(codes.NotFound, "table %q not found", req.Name)
 	}
@@ -404,7 +406,9 @@ func (s *server) GenerateConsistencyToken(ctx context.Context, req *btapb.Genera
 
 func (s *server) CheckConsistency(ctx context.Context, req *btapb.CheckConsistencyRequest) (*btapb.CheckConsistencyResponse, error) {
 	// Check that the table exists.
+	s.mu.Lock()
 	_, ok := s.tables[req.Name]
+	s.mu.Unlock()
 	if !ok {
 		return nil, status.Errorf(codes.NotFound, "table %q not found", req.Name)
 	}
